@@ -92,8 +92,17 @@ Proof. destruct j; try reflexivity. unfold jget. simpl. apply assoc_canon_fold. 
 Lemma jhas_canon k j : jhas k (canon j) = jhas k j.
 Proof. unfold jhas. rewrite jget_canon. destruct (jget k j); reflexivity. Qed.
 
+Lemma first_known_canon known : forall l, first_known known (map canon l) = first_known known l.
+Proof.
+  unfold first_known. induction l as [|e r IH]; [reflexivity|]. cbn [map find].
+  destruct e as [| | |s|l0|m]; cbn [canon]; try exact IH.
+  - destruct (known s); [reflexivity|exact IH].
+Qed.
 Lemma jtype_canon j : jtype (canon j) = jtype j.
-Proof. unfold jtype. rewrite jget_canon. destruct (jget "type" j) as [[]|]; reflexivity. Qed.
+Proof.
+  unfold jtype. rewrite jget_canon. destruct (jget "type" j) as [[| | |s|l|m]|]; try reflexivity.
+  cbn [option_map canon]. apply first_known_canon.
+Qed.
 
 Definition clean_val (f : nat) (v : json) : json := match v with JObj _ => clean_ctx f (jremove "@context" v) | _ => v end.
 
